@@ -5,12 +5,14 @@
      * the de-duplication of polyroots as coded,
      * Path.intersect (collection, index(), joint de-duplication). *)
 From Coq Require Import ZArith List Bool Arith Lia Field.
-From SVP Require Import Base.Num Base.Cplx Base.Poly Model.Bezier Model.Isect Proofs.IsectAlg.
+From SVP Require Import Base.Num Base.Cplx Base.Poly Model.Bezier Model.BezierN Model.Isect
+     Proofs.IsectAlg Proofs.Roots.
 Import ListNotations.
 
 Section Machine.
   Context {K : Type} (N : Num K).
   Local Notation C := (Cplx K).
+  Variable rm_fixed : bool.        (* false: pinned remove-while-iterating; true: repaired loop *)
   Variable bbox : list C -> box (K:=K).
   Variables tol tol_deC : K.
   Variable bez1 : list C.
@@ -18,6 +20,8 @@ Section Machine.
   Local Notation boxes_ok := (boxes_ok N bbox).
   Local Notation small := (small N bbox tol_deC).
   Local Notation level_loop := (level_loop N bbox tol tol_deC bez1).
+  Local Notation level_loop_fixed := (level_loop_fixed N bbox tol tol_deC bez1).
+  Local Notation level := (level N rm_fixed bbox tol tol_deC bez1).
 
   (* ---------------- list surgery ---------------- *)
   Lemma remove_nth_incl {A} n (l : list A) x : In x (remove_nth n l) -> In x l.
@@ -66,6 +70,32 @@ Section Machine.
           eapply Hchild; eauto.
       - apply IH; auto.
     Qed.
+
+    Lemma level_loop_fixed_inv f l i red st :
+      (forall p, In p l -> Pcur p) -> inv st -> inv (level_loop_fixed f delta l i red st).
+    Proof.
+      revert i red st. induction f as [|f IH]; intros i red st Hl Hst; cbn; auto.
+      destruct (nth_error l i) as [pr|] eqn:Hn; auto.
+      assert (Hpr : Pcur pr) by (apply Hl; eapply nth_error_In; eauto).
+      destruct (existsb (Nat.eqb i) red); [apply IH; auto|].
+      destruct (boxes_ok pr) eqn:Hb; [|apply IH; auto].
+      destruct (small pr) eqn:Hs.
+      - apply IH; auto.
+        destruct (approx_mem N tol (bezier_point N bez1 (bt1 pr)) (ls_seen st)); auto.
+        destruct Hst as [H1 H2]. split; cbn; auto.
+        intros tt Ht. apply in_app_or in Ht. destruct Ht as [Ht|[<-|[]]]; auto.
+      - apply IH; auto. destruct Hst as [H1 H2]. split; cbn; auto.
+        intros q Hq. apply in_app_or in Hq. destruct Hq as [Hq|Hq]; auto.
+        eapply Hchild; eauto.
+    Qed.
+
+    Lemma level_inv k l out seen : delta = npow N (half N) (k + 2) ->
+      (forall p, In p l -> Pcur p) -> inv (mkLS [] out seen) -> inv (level k l out seen).
+    Proof.
+      intros E Hl H0. unfold Isect.level. rewrite <- E. destruct rm_fixed.
+      - apply level_loop_fixed_inv; assumption.
+      - apply level_loop_inv; assumption.
+    Qed.
   End Inv.
 
   (* output and seen set only grow *)
@@ -86,21 +116,55 @@ Section Machine.
         destruct (IH l' i' st') as [A B] end. cbn in A, B. split; assumption.
   Qed.
 
+  Lemma level_loop_fixed_mono f delta l i red st :
+    incl (ls_new st) (ls_new (level_loop_fixed f delta l i red st))
+    /\ incl (ls_out st) (ls_out (level_loop_fixed f delta l i red st))
+    /\ incl (ls_seen st) (ls_seen (level_loop_fixed f delta l i red st)).
+  Proof.
+    revert i red st. induction f as [|f IH]; intros i red st; cbn.
+    { repeat split; apply incl_refl. }
+    destruct (nth_error l i) as [pr|]; [|repeat split; apply incl_refl].
+    destruct (existsb (Nat.eqb i) red); [apply IH|].
+    destruct (boxes_ok pr); [|apply IH].
+    destruct (small pr).
+    - match goal with |- context [level_loop_fixed f delta l ?i' ?r' ?st'] =>
+        destruct (IH i' r' st') as (A & B & D) end.
+      destruct (approx_mem N tol (bezier_point N bez1 (bt1 pr)) (ls_seen st)); [repeat split; assumption|].
+      cbn in A, B, D. repeat split; [exact A|..]; intros x Hx; [apply B|apply D]; apply in_or_app; auto.
+    - match goal with |- context [level_loop_fixed f delta l ?i' ?r' ?st'] =>
+        destruct (IH i' r' st') as (A & B & D) end.
+      cbn in A, B, D. repeat split; try assumption. intros x Hx. apply A. apply in_or_app; auto.
+  Qed.
+
   (* the FIRST pair of a level is always examined: if its boxes intersect and
      are small, then its point is in the approximate solution set afterwards
-     (reported now, or within tol of a point reported earlier) *)
+     (reported now, or within tol of a point reported earlier); both variants *)
   Lemma level_head_reported k p r out seen :
     boxes_ok p = true -> small p = true ->
-    let st := level N bbox tol tol_deC bez1 k (p :: r) out seen in
+    let st := level k (p :: r) out seen in
     approx_mem N tol (bezier_point N bez1 (bt1 p)) seen = true
     \/ (In (bt1 p, bt2 p) (ls_out st) /\ In (bezier_point N bez1 (bt1 p)) (ls_seen st)).
   Proof.
-    intros Hb Hs st. unfold st, level. cbn [length Isect.level_loop nth_error].
-    rewrite Hb, Hs. cbn [ls_seen ls_out ls_new].
-    destruct (approx_mem N tol (bezier_point N bez1 (bt1 p)) seen) eqn:Hm; [left; reflexivity|right].
-    match goal with |- context [level_loop ?f ?d ?l' ?i' ?st'] =>
-      destruct (level_loop_mono f d l' i' st') as [A B] end.
-    cbn in A, B. split; [apply A|apply B]; apply in_or_app; right; left; reflexivity.
+    intros Hb Hs st. unfold st, Isect.level. destruct rm_fixed.
+    - cbn [length Isect.level_loop_fixed nth_error existsb].
+      rewrite Hb, Hs. cbn [ls_seen ls_out ls_new].
+      destruct (approx_mem N tol (bezier_point N bez1 (bt1 p)) seen) eqn:Hm; [left; reflexivity|right].
+      match goal with |- context [level_loop_fixed ?f ?d ?l' ?i' ?r' ?st'] =>
+        destruct (level_loop_fixed_mono f d l' i' r' st') as (_ & A & B) end.
+      cbn in A, B. split; [apply A|apply B]; apply in_or_app; right; left; reflexivity.
+    - cbn [length Isect.level_loop nth_error].
+      rewrite Hb, Hs. cbn [ls_seen ls_out ls_new].
+      destruct (approx_mem N tol (bezier_point N bez1 (bt1 p)) seen) eqn:Hm; [left; reflexivity|right].
+      match goal with |- context [level_loop ?f ?d ?l' ?i' ?st'] =>
+        destruct (level_loop_mono f d l' i' st') as [A B] end.
+      cbn in A, B. split; [apply A|apply B]; apply in_or_app; right; left; reflexivity.
+  Qed.
+
+  Lemma skipn_cons_nth {A} (l : list A) i x : nth_error l i = Some x -> skipn i l = x :: skipn (S i) l.
+  Proof.
+    revert i. induction l as [|a l IHl]; intros [|i] Hn; cbn in *; try discriminate.
+    - injection Hn as ->. reflexivity.
+    - apply IHl; assumption.
   Qed.
 
   (* a level on which no pair is reported: nothing is skipped, every pair with
@@ -116,11 +180,26 @@ Section Machine.
       rewrite app_nil_r. destruct st; reflexivity.
     - cbn. destruct (nth_error l i) as [pr|] eqn:Hn.
       + assert (Hin : In pr l) by (eapply nth_error_In; eauto).
-        assert (Hsk : skipn i l = pr :: skipn (S i) l).
-        { clear - Hn. revert i Hn. induction l as [|a l IHl]; intros [|i] Hn; cbn in *; try discriminate.
-          - injection Hn as ->. reflexivity.
-          - apply IHl; assumption. }
-        rewrite Hsk. cbn [filter].
+        rewrite (skipn_cons_nth _ _ _ Hn). cbn [filter].
+        destruct (boxes_ok pr) eqn:Hb.
+        * rewrite (Hq pr Hin Hb). rewrite IH by (auto; lia). cbn [ls_new ls_out ls_seen flat_map].
+          rewrite <- app_assoc. reflexivity.
+        * rewrite IH by (auto; lia). reflexivity.
+      + apply nth_error_None in Hn. rewrite (skipn_all2 _ Hn). cbn. rewrite app_nil_r.
+        destruct st; reflexivity.
+  Qed.
+  Lemma level_loop_fixed_quiet f delta l i st :
+    (forall p, In p l -> boxes_ok p = true -> small p = false) ->
+    (length l - i <= f)%nat ->
+    level_loop_fixed f delta l i [] st
+    = mkLS (ls_new st ++ flat_map (children N delta) (filter boxes_ok (skipn i l))) (ls_out st) (ls_seen st).
+  Proof.
+    revert i st. induction f as [|f IH]; intros i st Hq Hf.
+    - cbn. assert (Hi : (length l <= i)%nat) by lia. rewrite (skipn_all2 _ Hi). cbn.
+      rewrite app_nil_r. destruct st; reflexivity.
+    - cbn. destruct (nth_error l i) as [pr|] eqn:Hn.
+      + assert (Hin : In pr l) by (eapply nth_error_In; eauto).
+        rewrite (skipn_cons_nth _ _ _ Hn). cbn [filter].
         destruct (boxes_ok pr) eqn:Hb.
         * rewrite (Hq pr Hin Hb). rewrite IH by (auto; lia). cbn [ls_new ls_out ls_seen flat_map].
           rewrite <- app_assoc. reflexivity.
@@ -130,10 +209,81 @@ Section Machine.
   Qed.
   Corollary level_quiet k l out seen :
     (forall p, In p l -> boxes_ok p = true -> small p = false) ->
-    level N bbox tol tol_deC bez1 k l out seen
+    level k l out seen
     = mkLS (flat_map (children N (npow N (half N) (k + 2))) (filter boxes_ok l)) out seen.
   Proof.
-    intros Hq. unfold level. rewrite level_loop_quiet by (auto; lia). reflexivity.
+    intros Hq. unfold Isect.level. destruct rm_fixed.
+    - rewrite level_loop_fixed_quiet by (auto; lia). reflexivity.
+    - rewrite level_loop_quiet by (auto; lia). reflexivity.
+  Qed.
+
+  (* ---------------- the repaired loop skips nothing ---------------- *)
+  Lemma related_idx_spec pr l j0 j : In j (related_idx N pr l j0) ->
+    exists o, nth_error l (j - j0) = Some o /\ related N pr o = true /\ (j0 <= j)%nat.
+  Proof.
+    revert j0. induction l as [|a l IH]; intros j0; cbn; [intros []|].
+    destruct (related N pr a) eqn:E.
+    - intros [<-|H].
+      + exists a. rewrite Nat.sub_diag. auto.
+      + destruct (IH (S j0) H) as (o & Hn & Hr & Hle). exists o.
+        replace (j - j0)%nat with (S (j - S j0)) by lia. cbn. repeat split; auto. lia.
+    - intros H. destruct (IH (S j0) H) as (o & Hn & Hr & Hle). exists o.
+      replace (j - j0)%nat with (S (j - S j0)) by lia. cbn. repeat split; auto. lia.
+  Qed.
+
+  (* every redundancy mark comes from an EXAMINED small pair with intersecting boxes *)
+  Definition marks_ok (l : list (bpair (K:=K))) (i : nat) (red : list nat) : Prop :=
+    forall j, In j red -> exists k q o, (k < i)%nat /\ nth_error l k = Some q /\ boxes_ok q = true
+                                   /\ small q = true /\ nth_error l j = Some o /\ related N q o = true.
+
+  (* a pair (position t) with intersecting boxes that is not yet small and is not
+     related to any reportable pair of the level is subdivided: its four children
+     are in the next pair list — whatever else happens on the level *)
+  Lemma level_loop_fixed_children f delta l i red st t p :
+    marks_ok l i red -> (i <= t)%nat -> (length l - i <= f)%nat ->
+    nth_error l t = Some p -> boxes_ok p = true -> small p = false ->
+    (forall k q, nth_error l k = Some q -> boxes_ok q = true -> small q = true -> related N q p = false) ->
+    incl (children N delta p) (ls_new (level_loop_fixed f delta l i red st)).
+  Proof.
+    revert i red st. induction f as [|f IH]; intros i red st Hm Hit Hf Hn Hb Hs Hunrel.
+    { exfalso. assert (nth_error l t <> None) by congruence. apply nth_error_Some in H. lia. }
+    cbn. destruct (nth_error l i) as [pr|] eqn:Hi.
+    2:{ exfalso. apply nth_error_None in Hi. assert (nth_error l t <> None) by congruence.
+        apply nth_error_Some in H. lia. }
+    assert (Hstep : forall red', marks_ok l (S i) red' -> forall st', (S i <= t)%nat ->
+              incl (children N delta p) (ls_new (level_loop_fixed f delta l (S i) red' st'))).
+    { intros red' Hm' st' Hlt. apply IH; auto. lia. }
+    assert (Hm_S : marks_ok l (S i) red).
+    { intros j Hj. destruct (Hm j Hj) as (k & q & o & Hk & R). exists k, q, o. split; [lia|exact R]. }
+    destruct (Nat.eq_dec i t) as [->|Hne].
+    - rewrite Hn in Hi. injection Hi as <-.
+      destruct (existsb (Nat.eqb t) red) eqn:E.
+      { exfalso. apply existsb_exists in E. destruct E as [j [Hj Ej]]. apply Nat.eqb_eq in Ej. subst j.
+        destruct (Hm t Hj) as (k & q & o & Hk & Hq & Hbq & Hsq & Ho & Hr).
+        rewrite Hn in Ho. injection Ho as <-. rewrite (Hunrel k q Hq Hbq Hsq) in Hr. discriminate. }
+      rewrite Hb, Hs.
+      match goal with |- context [level_loop_fixed f delta l ?i' ?r' ?st'] =>
+        destruct (level_loop_fixed_mono f delta l i' r' st') as (A & _) end.
+      cbn in A. intros x Hx. apply A. apply in_or_app; auto.
+    - assert (Hlt : (S i <= t)%nat) by lia.
+      destruct (existsb (Nat.eqb i) red); [apply Hstep; auto|].
+      destruct (boxes_ok pr) eqn:Hbp; [|apply Hstep; auto].
+      destruct (small pr) eqn:Hsp; [|apply Hstep; auto].
+      apply Hstep; auto.
+      intros j Hj. apply in_app_or in Hj. destruct Hj as [Hj|Hj].
+      + destruct (Hm j Hj) as (k & q & o & Hk & R). exists k, q, o. split; [lia|exact R].
+      + destruct (related_idx_spec _ _ _ _ Hj) as (o & Ho & Hr & _). rewrite Nat.sub_0_r in Ho.
+        exists i, pr, o. repeat split; auto.
+  Qed.
+
+  Theorem level_fixed_no_skip k l out seen t p : rm_fixed = true ->
+    nth_error l t = Some p -> boxes_ok p = true -> small p = false ->
+    (forall j q, nth_error l j = Some q -> boxes_ok q = true -> small q = true -> related N q p = false) ->
+    incl (children N (npow N (half N) (k + 2)) p) (ls_new (level k l out seen)).
+  Proof.
+    intros -> Hn Hb Hs Hu. unfold Isect.level.
+    apply (level_loop_fixed_children (length l) _ l 0 [] _ t p); auto; try lia.
+    intros j [].
   Qed.
 
   (* ---------------- all levels ---------------- *)
@@ -165,28 +315,26 @@ Section Machine.
 
   Lemma bi_levels_witness n k l out seen res :
     (forall p, In p l -> pair_ok k p) -> (forall tt, In tt out -> witnessed tt) ->
-    bi_levels N bbox tol tol_deC bez1 n k l out seen = IOk res ->
+    bi_levels N rm_fixed bbox tol tol_deC bez1 n k l out seen = IOk res ->
     forall tt, In tt res -> witnessed tt.
   Proof.
     revert k l out seen. induction n as [|n IH]; intros k l out seen Hl Ho; cbn; [discriminate|].
     destruct l as [|p0 l0].
     { intros E; injection E as <-. exact Ho. }
     set (l := p0 :: l0) in *.
-    pose proof (@level_loop_inv (pair_ok k) (pair_ok (S k)) witnessed (npow N (half N) (k + 2))
-                  (children_ok k)) as LI.
     assert (Hrep : forall p, pair_ok k p -> boxes_ok p = true -> small p = true -> witnessed (bt1 p, bt2 p)).
     { intros p [H1 H2] Hb Hs. exists (bp1 p), (bp2 p), k. cbn [fst snd].
       unfold Isect.small in Hs. apply andb_prop in Hs. destruct Hs. repeat split; auto. }
-    specialize (LI Hrep (length l) l 0%nat (mkLS [] out seen) Hl).
     assert (I0 : inv (pair_ok (S k)) witnessed (mkLS [] out seen)).
     { split; cbn; auto. intros q []. }
-    specialize (LI I0). destruct LI as [L1 L2].
+    pose proof (@level_inv (pair_ok k) (pair_ok (S k)) witnessed (npow N (half N) (k + 2))
+                  (children_ok k) Hrep k l out seen eq_refl Hl I0) as [L1 L2].
     intros E. eapply IH; [| |exact E]; assumption.
   Qed.
 
   (* C11_subdiv_witness *)
   Theorem subdiv_witness maxits res :
-    bezier_intersections N bbox tol tol_deC bez1 maxits bez2 = IOk res ->
+    bezier_intersections N rm_fixed bbox tol tol_deC bez1 maxits bez2 = IOk res ->
     forall tt, In tt res -> witnessed tt.
   Proof.
     unfold bezier_intersections. apply bi_levels_witness.
@@ -199,12 +347,12 @@ End Machine.
 Section Roots.
   Context {K : Type} (N : Num K).
 
-  Lemma drop_indices_nil {A} (l : list A) i : drop_indices [] l i = l.
+  Lemma drop_indices_nil (l : list K) i : drop_indices i [] l = l.
   Proof. revert i; induction l as [|a l IH]; intros i; cbn; auto. rewrite IH; reflexivity. Qed.
 
   Lemma close_pair_indices_none rtol atol ps i :
     (forall r1 r2, In (r1, r2) ps -> isclose N rtol atol r1 r2 = false) ->
-    close_pair_indices N rtol atol ps i = [].
+    close_pair_indices N rtol atol i ps = [].
   Proof.
     revert i; induction ps as [|[r1 r2] ps IH]; intros i H; cbn; auto.
     rewrite (H r1 r2) by (left; reflexivity). apply IH. intros; apply H; right; assumption.
@@ -212,11 +360,24 @@ Section Roots.
 
   (* when no two roots are close, the (mis-indexed) de-duplication is the identity *)
   Lemma dedup_noclose rtol atol roots :
-    (forall r1 r2, In (r1, r2) (pairs_of roots) -> isclose N rtol atol r1 r2 = false) ->
+    (forall r1 r2, In (r1, r2) (combinations2 roots) -> isclose N rtol atol r1 r2 = false) ->
     dedup_as_coded N rtol atol roots = roots.
   Proof.
-    intros H. unfold dedup_as_coded. rewrite close_pair_indices_none by exact H.
+    intros H. unfold dedup_as_coded, dedup_coded. rewrite close_pair_indices_none by exact H.
     apply drop_indices_nil.
+  Qed.
+
+  (* repaired variant: a root of the filtered list that is not close to an
+     EARLIER one is returned by polyroots01 (exactly once) *)
+  Lemma polyroots01_fixed_keeps rtol atol raw l1 t l2 :
+    filter (in01 N) (map fst (filter (fun z => isclose N rtol atol (snd z) (zero N)) raw)) = l1 ++ t :: l2 ->
+    (forall y, In y l1 -> isclose N rtol atol y t = false) -> isclose N rtol atol t t = true ->
+    In t (polyroots01_of N true rtol atol raw).
+  Proof.
+    intros E Hiso Hrefl. unfold polyroots01_of, polyroots01, polyroots. cbv zeta.
+    change (fun r : K => leb N (zero N) r && leb N r (one N)) with (in01 N). rewrite E.
+    destruct (dedup_fixed_keeps_isolated N rtol atol l1 t l2 Hiso Hrefl) as (o1 & o2 & -> & _).
+    apply in_or_app; right; left; reflexivity.
   Qed.
 
   Hypothesis Heqb : forall x y : K, eqb N x y = true <-> x = y.
@@ -276,43 +437,67 @@ Section PathFacts.
   Variable seg_isect : seg K -> seg K -> ires (list (K * K)).
   Variable seg_point : seg K -> K -> C.
   Variable tol : K.
+  Variable idx_fixed : bool.     (* false: T from list.index (pinned); true: from the position (repair) *)
 
-  Local Notation entries := (entries N).
-  Local Notation collect := (collect N seg_isect).
+  Local Notation collect := (collect N seg_isect idx_fixed).
+  Local Notation pos_of := (pos_of N idx_fixed).
 
-  (* what an element of the raw list is *)
+  Lemma enum_from_In {A} (l : list A) a i s : In (i, s) (combine (seq a (length l)) l) ->
+    (a <= i)%nat /\ nth_error l (i - a) = Some s.
+  Proof.
+    revert a. induction l as [|x l IH]; intros a; cbn; [intros []|].
+    intros [E|H].
+    - injection E as <- <-. rewrite Nat.sub_diag. auto.
+    - destruct (IH (S a) H) as [Hle Hn]. split; [lia|].
+      replace (i - a)%nat with (S (i - S a)) by lia. exact Hn.
+  Qed.
+  Lemma enum_In {A} (l : list A) i s : In (i, s) (enum l) -> nth_error l i = Some s.
+  Proof. intros H. destruct (enum_from_In l 0 i s H) as [_ Hn]. rewrite Nat.sub_0_r in Hn. exact Hn. Qed.
+  Lemma In_enum {A} (l : list A) i s : nth_error l i = Some s -> In (i, s) (enum l).
+  Proof.
+    intros H.
+    assert (G : forall a, In ((a + i)%nat, s) (combine (seq a (length l)) l)).
+    { revert i H. induction l as [|x l IH]; intros [|i] Hn b; cbn in *; try discriminate.
+      - injection Hn as ->. left. rewrite Nat.add_0_r. reflexivity.
+      - right. replace (b + S i)%nat with (S b + i)%nat by lia. apply IH; assumption. }
+    exact (G 0%nat).
+  Qed.
+
+  (* what an element of the raw list is: it comes from positions i, j of the two
+     paths; the T values are computed from pos_of (the first EQUAL segment in the
+     pinned variant, the position itself in the repaired one) *)
   Definition raw_entry (p1 : list (seg K)) (lens1 : list K) (p2 : list (seg K)) (lens2 : list K)
-             (pairs : list (seg K * seg K)) (e : pent (K:=K) * pent (K:=K)) : Prop :=
-    exists s1 s2 t1 t2 l,
-      In (s1, s2) pairs /\ seg_isect s1 s2 = IOk l /\ In (t1, t2) l
-      /\ e = ((t2T N lens1 (index_of N p1 s1) t1, s1, t1), (t2T N lens2 (index_of N p2 s2) t2, s2, t2)).
+             (pairs : list ((nat * seg K) * (nat * seg K))) (e : pent (K:=K) * pent (K:=K)) : Prop :=
+    exists i j s1 s2 t1 t2 l,
+      In ((i, s1), (j, s2)) pairs /\ seg_isect s1 s2 = IOk l /\ In (t1, t2) l
+      /\ e = ((t2T N lens1 (pos_of p1 i s1) t1, s1, t1), (t2T N lens2 (pos_of p2 j s2) t2, s2, t2)).
 
   Lemma collect_sound p1 lens1 p2 lens2 pairs res :
     collect p1 lens1 p2 lens2 pairs = IOk res ->
     forall e, In e res -> raw_entry p1 lens1 p2 lens2 pairs e.
   Proof.
-    revert res. induction pairs as [|[s1 s2] r IH]; intros res; cbn.
+    revert res. induction pairs as [|[[i s1] [j s2]] r IH]; intros res; cbn.
     { intros E; injection E as <-. intros e []. }
     destruct (seg_isect s1 s2) as [l| | |] eqn:E1; try discriminate.
     destruct (collect p1 lens1 p2 lens2 r) as [l'| | |] eqn:E2; try discriminate.
     intros E; injection E as <-. intros e He. apply in_app_or in He. destruct He as [He|He].
     - unfold Isect.entries in He. apply in_map_iff in He. destruct He as [[t1 t2] [<- Ht]].
-      exists s1, s2, t1, t2, l. cbn [fst snd]. repeat split; auto. left; reflexivity.
-    - destruct (IH l' eq_refl e He) as (a & b & t1 & t2 & l0 & H1 & H2 & H3 & H4).
-      exists a, b, t1, t2, l0. repeat split; auto. right; assumption.
+      exists i, j, s1, s2, t1, t2, l. cbn [fst snd]. repeat split; auto. left; reflexivity.
+    - destruct (IH l' eq_refl e He) as (i' & j' & a & b & t1 & t2 & l0 & H1 & H2 & H3 & H4).
+      exists i', j', a, b, t1, t2, l0. repeat split; auto. right; assumption.
   Qed.
 
   (* conversely nothing is lost before the joint de-duplication *)
-  Lemma collect_complete p1 lens1 p2 lens2 pairs res s1 s2 l t1 t2 :
+  Lemma collect_complete p1 lens1 p2 lens2 pairs res i j s1 s2 l t1 t2 :
     collect p1 lens1 p2 lens2 pairs = IOk res ->
-    In (s1, s2) pairs -> seg_isect s1 s2 = IOk l -> In (t1, t2) l ->
-    In ((t2T N lens1 (index_of N p1 s1) t1, s1, t1), (t2T N lens2 (index_of N p2 s2) t2, s2, t2)) res.
+    In ((i, s1), (j, s2)) pairs -> seg_isect s1 s2 = IOk l -> In (t1, t2) l ->
+    In ((t2T N lens1 (pos_of p1 i s1) t1, s1, t1), (t2T N lens2 (pos_of p2 j s2) t2, s2, t2)) res.
   Proof.
-    revert res. induction pairs as [|[a b] r IH]; intros res; cbn; [intros _ []|].
+    revert res. induction pairs as [|[[i' a] [j' b]] r IH]; intros res; cbn; [intros _ []|].
     destruct (seg_isect a b) as [la| | |] eqn:E1; try discriminate.
     destruct (collect p1 lens1 p2 lens2 r) as [l'| | |] eqn:E2; try discriminate.
     intros E; injection E as <-. intros [Ep|Hp] Hs Ht; apply in_or_app.
-    - injection Ep as -> ->. left. rewrite E1 in Hs. injection Hs as ->.
+    - injection Ep as -> -> -> ->. left. rewrite E1 in Hs. injection Hs as ->.
       unfold Isect.entries. apply in_map_iff. exists (t1, t2). split; auto.
     - right. eapply IH; eauto.
   Qed.
@@ -346,18 +531,19 @@ Section PathFacts.
 
   (* C11_path_coherent (structure) *)
   Theorem path_intersect_sound p1 lens1 p2 lens2 res :
-    path_intersect N seg_isect seg_point tol p1 lens1 p2 lens2 = IOk res ->
+    path_intersect N seg_isect seg_point tol idx_fixed p1 lens1 p2 lens2 = IOk res ->
     forall e, In e res ->
-    exists s1 s2 t1 t2 l,
-      In s1 p1 /\ In s2 p2 /\ seg_isect s1 s2 = IOk l /\ In (t1, t2) l
-      /\ e = ((t2T N lens1 (index_of N p1 s1) t1, s1, t1), (t2T N lens2 (index_of N p2 s2) t2, s2, t2)).
+    exists i j s1 s2 t1 t2 l,
+      nth_error p1 i = Some s1 /\ nth_error p2 j = Some s2 /\ seg_isect s1 s2 = IOk l /\ In (t1, t2) l
+      /\ e = ((t2T N lens1 (pos_of p1 i s1) t1, s1, t1), (t2T N lens2 (pos_of p2 j s2) t2, s2, t2)).
   Proof.
     unfold path_intersect. destruct (path_eqb N p1 p2); [discriminate|].
-    destruct (collect p1 lens1 p2 lens2 (list_prod p1 p2)) as [l| | |] eqn:E; try discriminate.
+    destruct (collect p1 lens1 p2 lens2 (list_prod (enum p1) (enum p2))) as [l| | |] eqn:E; try discriminate.
     intros R; injection R as <-. intros e He.
     apply dedup_joint_incl in He. rewrite map_map in He. cbn in He. rewrite map_id in He.
-    destruct (collect_sound _ _ _ _ _ _ E e He) as (s1 & s2 & t1 & t2 & l0 & H1 & H2 & H3 & H4).
-    apply in_prod_iff in H1. destruct H1. exists s1, s2, t1, t2, l0. repeat split; auto.
+    destruct (collect_sound _ _ _ _ _ _ E e He) as (i & j & s1 & s2 & t1 & t2 & l0 & H1 & H2 & H3 & H4).
+    apply in_prod_iff in H1. destruct H1 as [A B]. apply enum_In in A. apply enum_In in B.
+    exists i, j, s1, s2, t1, t2, l0. repeat split; auto.
   Qed.
 
   (* index() finds the position the loop variable came from when equal
@@ -373,16 +559,23 @@ Section PathFacts.
       + apply Hseq in E. subst. exfalso. apply Ha. eapply nth_error_In; eauto.
       + f_equal. apply IH; auto.
   Qed.
+  (* so: pos_of is the position itself — always in the repaired variant, and under
+     NoDup in the pinned one *)
+  Lemma pos_of_position p k s : idx_fixed = true \/ NoDup p -> nth_error p k = Some s -> pos_of p k s = k.
+  Proof.
+    unfold Isect.pos_of. destruct idx_fixed; [reflexivity|].
+    intros [H|H]; [discriminate|]. apply index_of_nodup; assumption.
+  Qed.
 
   (* C12_path_once: if the reported points are pairwise at least tol apart,
      the joint de-duplication removes nothing, so every crossing found by a
      segment pair appears in the result, exactly as many times as in the raw list *)
   Theorem path_intersect_keeps p1 lens1 p2 lens2 raw :
     path_eqb N p1 p2 = false ->
-    collect p1 lens1 p2 lens2 (list_prod p1 p2) = IOk raw ->
+    collect p1 lens1 p2 lens2 (list_prod (enum p1) (enum p2)) = IOk raw ->
     ForallOrdPairs (fun a b => far (seg_point (snd (fst (fst b))) (snd (fst b)))
                                    (seg_point (snd (fst (fst a))) (snd (fst a)))) raw ->
-    path_intersect N seg_isect seg_point tol p1 lens1 p2 lens2 = IOk raw.
+    path_intersect N seg_isect seg_point tol idx_fixed p1 lens1 p2 lens2 = IOk raw.
   Proof.
     intros Hne E Hfar. unfold path_intersect. rewrite Hne, E. f_equal.
     rewrite dedup_joint_keeps_all.
@@ -460,5 +653,20 @@ Section BezLineComplete.
     pose proof (bl_select_complete N Heqb len bez l0 l1 roots t Hin) as B.
     rewrite Hx in B. specialize (B H0 H1).
     replace (div N (mul N s len) len) with s in B by (field; exact Hl). exact B.
+  Qed.
+
+  (* repaired polyroots: no hypothesis about what the de-duplication does is left —
+     the crossing parameter only has to be among the real roots in [0,1] that the
+     oracle returned and not be close to an earlier one of them *)
+  Theorem bezier_line_complete_fixed rtol atol raw len bez l0 l1 l1' t l2' s :
+    deg123 bez -> len <> zero N -> cnorm2 N (csub N l1 l0) <> zero N ->
+    filter (in01 N) (map fst (filter (fun z => isclose N rtol atol (snd z) (zero N)) raw)) = l1' ++ t :: l2' ->
+    (forall y, In y l1' -> isclose N rtol atol y t = false) -> isclose N rtol atol t t = true ->
+    bezier_point N bez t = line_point N l0 l1 s ->
+    leb N (zero N) (mul N s len) = true -> leb N (mul N s len) len = true ->
+    In (t, s) (bl_select N len bez l0 l1 (polyroots01_of N true rtol atol raw)).
+  Proof.
+    intros Hd Hl Hn E Hiso Hrefl Hc H0 H1.
+    apply bezier_line_complete; auto. eapply polyroots01_fixed_keeps; eauto.
   Qed.
 End BezLineComplete.
